@@ -106,6 +106,8 @@ func init() {
 			}
 			m.writer = true
 			in.gatePassed()
+			in.raceAcquire(m)
+			in.raceAcquire(&m.readers)
 			return Value{}, true
 		},
 		"(*sync.RWMutex).Unlock": func(in *Interp, fr *Frame, a []Value) (Value, bool) {
@@ -115,6 +117,7 @@ func init() {
 				return Value{}, true
 			}
 			m.writer = false
+			in.raceRelease(m)
 			return Value{}, true
 		},
 		"(*sync.RWMutex).RLock": func(in *Interp, fr *Frame, a []Value) (Value, bool) {
@@ -123,6 +126,7 @@ func init() {
 				return Value{}, false
 			}
 			m.readers++
+			in.raceAcquire(m)
 			return Value{}, true
 		},
 		"(*sync.RWMutex).RUnlock": func(in *Interp, fr *Frame, a []Value) (Value, bool) {
@@ -132,6 +136,7 @@ func init() {
 				return Value{}, true
 			}
 			m.readers--
+			in.raceRelease(&m.readers)
 			return Value{}, true
 		},
 		"(*sync.Mutex).Lock": func(in *Interp, fr *Frame, a []Value) (Value, bool) {
@@ -141,10 +146,13 @@ func init() {
 			}
 			m.writer = true
 			in.gatePassed()
+			in.raceAcquire(m)
 			return Value{}, true
 		},
 		"(*sync.Mutex).Unlock": func(in *Interp, fr *Frame, a []Value) (Value, bool) {
-			in.mutexOf(a[0]).writer = false
+			m := in.mutexOf(a[0])
+			m.writer = false
+			in.raceRelease(m)
 			return Value{}, true
 		},
 		"(*sync.WaitGroup).Add": func(in *Interp, fr *Frame, a []Value) (Value, bool) {
@@ -158,13 +166,18 @@ func init() {
 			return Value{}, true
 		},
 		"(*sync.WaitGroup).Done": func(in *Interp, fr *Frame, a []Value) (Value, bool) {
-			in.side[a[0].R.(*Value)].(*wgSt).n--
+			w := in.side[a[0].R.(*Value)].(*wgSt)
+			w.n--
+			in.raceRelease(w)
 			return Value{}, true
 		},
 		"(*sync.WaitGroup).Wait": func(in *Interp, fr *Frame, a []Value) (Value, bool) {
 			s, ok := in.side[a[0].R.(*Value)].(*wgSt)
 			if ok && s.n > 0 {
 				return Value{}, false
+			}
+			if ok {
+				in.raceAcquire(s)
 			}
 			return Value{}, true
 		},
